@@ -1076,6 +1076,8 @@ class SortValues(BaseSetIndexSortValues):
             _divisions_by,
             _divisions_by._meta._constructor(divisions).sort_values(),
             ascending=self._divisions_ascending,
+            # nulls go to the first or the last output partition accordingly
+            na_position=self.na_position,
         )
         assigned = Assign(self.frame, "_partitions", partitions)
         shuffled = Shuffle(
